@@ -25,7 +25,7 @@ def run(seed, n, flags=""):
     cache = os.path.join(vlib.WORK, "satrun-%s.json" % key)
     if os.path.exists(cache):
         return json.load(open(cache))
-    cmd = "%s sat %d %d 2>/dev/null | %s %s" % (hbin, seed, n, DRIVER, flags)
+    cmd = "set -o pipefail; %s sat %d %d 2>/dev/null | %s %s" % (hbin, seed, n, DRIVER, flags)
     p = vlib.sh(cmd, timeout=3000)
     if p.returncode != 0:
         raise RuntimeError("sat run failed: " + p.stderr[-2000:])
@@ -43,7 +43,7 @@ def run(seed, n, flags=""):
         elif line.startswith("HIST "):
             _, k, v = line.split()
             res["hist"][k] = int(v)
-    if not res["summary"]:
+    if not res["summary"] or "ENDSAT" not in p.stdout:
         raise RuntimeError("driver produced no summary: " + p.stdout[-2000:] + p.stderr[-2000:])
     for k in ("bad", "diff", "panic"):
         pass
